@@ -1,4 +1,5 @@
 import AslModel.Lemmas.CmdArg
+import AslModel.Lemmas.KeyFile
 import AslModel.Lemmas.Drehe
 import AslModel.Model.ReportPipe
 import AslModel.Generated.AsParams
@@ -10,6 +11,10 @@ expressible as theorems.
   handler-call sequence / option state / file list whether the parameters come from argv, from the
   `ASCMD` string, from a key file named in `ASCMD` or from a key file named on the command line - namely
   what the parameter-list spec written from the manual (`Spec/Options.lean`) says.
+* `C17_keyfile_reader`, `C17_keyfile_layout`, `C17_keyfile_final_line_end`, `C17_keyfile_as_argv`: the key file READER
+  (`fgets`/`ReadLn`/the `while (!feof)` loop of ProcessFile, `Model/CmdArg.lean` `keyFileLines`) on the raw content of a key
+  file: any number of blanks before, between and after the parameters, empty lines, LF or CR-LF line ends, last line with or
+  without line end - the parameter lists that reach the handlers are the blank-separated words of the lines.
 * `C17_drehe_involutive`, `C17_drehe_length`: DreheCodes is an involution on the code buffer - the reason
   why WriteBytes and MakeList may both swap in place.
 * `C17_noninterference`, `C17_noninterference_run`: on the per-line pipeline model the code-affecting part
@@ -170,6 +175,100 @@ theorem C17_keyfile_lines (recs : List (CMDRec σ)) (fs : Tok → Option (List T
       simp [processCMD, argvLoop, maxParam]
     rw [this, hfile, hargv, hflat]
 
+/-! ### key files as files: blanks, line ends, the last line -/
+
+/-- file system with one key file `k` of the given content -/
+def oneRaw (k : Tok) (content : Tok) : Tok → Option Tok := fun n => if n = k then some content else none
+
+/-- **Key file reader.**  For a key file made of lines in any layout (`KLine`: blanks before the first parameter and after
+every parameter), each terminated by LF or CR-LF, optionally followed by one more line WITHOUT line end, `ReadLn` in the
+`while (!feof)` loop of ProcessFile delivers exactly the line bodies - the unterminated last line included - and, when the file
+ends with a line end, one more empty line. -/
+theorem C17_keyfile_reader (ls : List (KLine × LineEnd)) (last : Option KLine)
+    (hg : ∀ p ∈ ls, p.1.Good) (hl : ∀ l, last = some l → l.Good) :
+    keyFileLines (renderKey ls last) = ls.map (·.1.body) ++ [lastBody last] :=
+  keyFileLines_render ls last hg hl
+
+/-- **Key file layout.**  Whatever the layout (blanks, empty lines, LF / CR-LF, final line end or not), a key file named on
+the command line or by `ASCMD` has the effect the parameter-list spec gives to the lists of its blank-separated words, line by
+line (`keyParams` = the parameters of the lines, no characters). -/
+theorem C17_keyfile_layout (recs : List (CMDRec σ)) (k : Tok) (ls : List (KLine × LineEnd)) (last : Option KLine) (st : St σ)
+    (hg : ∀ p ∈ ls, p.1.Good) (hl : ∀ l, last = some l → l.Good)
+    (hc : ∀ p ∈ ls, Clean p.1.params) (hcl : ∀ l, last = some l → Clean l.params) :
+    (processCMD recs (rawFs (oneRaw k (renderKey ls last))) [] ['@' :: k] st).view = keyLines recs (keyParams ls last) st.view ∧
+    (processCMD recs (rawFs (oneRaw k (renderKey ls last))) ('@' :: k) [] st).view = keyLines recs (keyParams ls last) st.view := by
+  have hfile := processFile_render recs (oneRaw k (renderKey ls last)) k ls last st (by simp [oneRaw]) hg hl hc hcl
+  constructor
+  · have : processCMD recs (rawFs (oneRaw k (renderKey ls last))) [] ['@' :: k] st
+        = processFile recs (rawFs (oneRaw k (renderKey ls last))) k st := by
+      simp [processCMD, argvLoop, processParam, decodeLine, clrBlanks, maxParam]
+    rw [this, hfile]
+  · have : processCMD recs (rawFs (oneRaw k (renderKey ls last))) ('@' :: k) [] st
+        = processFile recs (rawFs (oneRaw k (renderKey ls last))) k st := by
+      simp [processCMD, argvLoop, maxParam]
+    rw [this, hfile]
+
+/-- **The parameters read from a key file are its blank-separated words.**  The spec reads a key file as a text file
+(`Spec/Options.lean` `keyFileParams`: lines ended by LF or CR-LF, the last one possibly without line end; the parameters of a
+line are its blank-separated words).  cmdarg.c's reader - `fgets` in 255-character pieces, `ReadLn`'s stripping, the `feof` loop,
+DecodeLine's in-place split - has exactly this effect, for every layout and whatever the final line end is. -/
+theorem C17_keyfile_words (recs : List (CMDRec σ)) (k : Tok) (ls : List (KLine × LineEnd)) (last : Option KLine) (st : St σ)
+    (hg : ∀ p ∈ ls, p.1.Good) (hl : ∀ l, last = some l → l.Good)
+    (hc : ∀ p ∈ ls, Clean p.1.params) (hcl : ∀ l, last = some l → Clean l.params) :
+    (processCMD recs (rawFs (oneRaw k (renderKey ls last))) [] ['@' :: k] st).view
+      = keyLines recs (keyFileParams (renderKey ls last)) st.view ∧
+    (processCMD recs (rawFs (oneRaw k (renderKey ls last))) ('@' :: k) [] st).view
+      = keyLines recs (keyFileParams (renderKey ls last)) st.view := by
+  have h := C17_keyfile_layout recs k ls last st hg hl hc hcl
+  rw [keyLines_keyFileParams recs ls last st.view hg hl]
+  exact h
+
+/-- **The final line end does not matter.**  The same key file with its last line terminated (by LF or CR-LF) or not
+terminated at all: same option state, same files, same rejected parameters - on both key file routes. -/
+theorem C17_keyfile_final_line_end (recs : List (CMDRec σ)) (k : Tok) (ls : List (KLine × LineEnd)) (l : KLine) (e : LineEnd)
+    (st : St σ) (hg : ∀ p ∈ ls, p.1.Good) (hl : l.Good) (hc : ∀ p ∈ ls, Clean p.1.params) (hcl : Clean l.params) :
+    (processCMD recs (rawFs (oneRaw k (renderKey (ls ++ [(l, e)]) none))) [] ['@' :: k] st).view
+      = (processCMD recs (rawFs (oneRaw k (renderKey ls (some l)))) [] ['@' :: k] st).view ∧
+    (processCMD recs (rawFs (oneRaw k (renderKey (ls ++ [(l, e)]) none))) ('@' :: k) [] st).view
+      = (processCMD recs (rawFs (oneRaw k (renderKey ls (some l)))) ('@' :: k) [] st).view := by
+  have h1 := C17_keyfile_layout recs k (ls ++ [(l, e)]) none st
+    (by intro p hp; rcases List.mem_append.mp hp with h | h
+        · exact hg p h
+        · simp at h; subst h; exact hl)
+    (by intro x hx; cases hx)
+    (by intro p hp; rcases List.mem_append.mp hp with h | h
+        · exact hc p h
+        · simp at h; subst h; exact hcl)
+    (by intro x hx; cases hx)
+  have h2 := C17_keyfile_layout recs k ls (some l) st hg (by intro x hx; cases hx; exact hl) hc (by intro x hx; cases hx; exact hcl)
+  have hp : keyParams (ls ++ [(l, e)]) none = keyParams ls (some l) := by simp [keyParams]
+  rw [hp] at h1
+  exact ⟨h1.1.trans h2.1.symm, h1.2.trans h2.2.symm⟩
+
+/-- **A key file = its words on the command line.**  If every non-empty line starts with a switch and no handler claims an
+argument when none is offered (true of every as.c callback, `C17_as_callbacks_no_arg_on_empty`), the key file - in any layout,
+with any final line end - is equivalent to all its blank-separated words given on the command line. -/
+theorem C17_keyfile_as_argv (recs : List (CMDRec σ)) (fs : Tok → Option (List Tok)) (k : Tok)
+    (ls : List (KLine × LineEnd)) (last : Option KLine) (st : St σ)
+    (hg : ∀ p ∈ ls, p.1.Good) (hl : ∀ l, last = some l → l.Good)
+    (hc : ∀ p ∈ ls, Clean p.1.params) (hcl : ∀ l, last = some l → Clean l.params)
+    (hk : ∀ l ∈ keyParams ls last, ∀ t ∈ l, isKeyRef t = false)
+    (hsw : ∀ l ∈ keyParams ls last, StartsWithSwitch l) (hna : NoArgOnEmpty recs)
+    (hfit : (keyParams ls last).flatten.length ≤ maxParam) :
+    (processCMD recs (rawFs (oneRaw k (renderKey ls last))) [] ['@' :: k] st).view
+      = (processCMD recs fs [] (keyParams ls last).flatten st).view ∧
+    (processCMD recs (rawFs (oneRaw k (renderKey ls last))) ('@' :: k) [] st).view
+      = (processCMD recs fs [] (keyParams ls last).flatten st).view := by
+  have hlay := C17_keyfile_layout recs k ls last st hg hl hc hcl
+  have hargv : (processCMD recs fs [] (keyParams ls last).flatten st).view = lineParams recs (keyParams ls last).flatten st.view := by
+    rw [processCMD_argv recs fs _ st hfit]
+    exact (argv_noKey recs fs _ st (by
+      intro t ht
+      obtain ⟨l, hl', htl⟩ := List.mem_flatten.mp ht
+      exact hk l hl' t htl)).1
+  have hflat := keyLines_flatten recs hna (keyParams ls last) st.view hsw
+  exact ⟨by rw [hlay.1, hargv, hflat], by rw [hlay.2, hargv, hflat]⟩
+
 /-- **`+opt` negation.**  `+x` and `-x` are the same switch parameter - same whole-word / letter-by-letter
 resolution, same offered argument - and differ only in the `Negate` flag handed to the handlers. -/
 theorem C17_plus_negates (recs : List (CMDRec σ)) (body next : Tok) (u : σ) :
@@ -307,6 +406,34 @@ example : NoArgOnEmpty demoTable := by
   intro r hr neg u
   simp [demoTable] at hr
   rcases hr with h | h | h | h | h <;> subst h <;> simp [logSwitch]
+-- a key file with CR-LF and LF line ends, an empty line, blanks everywhere and NO line end after the last line
+def demoKeyLines : List (KLine × LineEnd) :=
+  [(⟨0, [("-Lu".toList, 1), ("+q".toList, 0)]⟩, .crlf), (⟨0, []⟩, .crlf), (⟨2, [("-olist".toList, 0), ("x.lst".toList, 1)]⟩, .lf)]
+def demoKeyLast : KLine := ⟨1, [("-t".toList, 2), ("3".toList, 0)]⟩
+
+example : String.ofList (renderKey demoKeyLines (some demoKeyLast)) = "-Lu  +q\r\n\r\n  -olist x.lst \n -t   3" := by decide
+example : keyParams demoKeyLines (some demoKeyLast) = [["-Lu".toList, "+q".toList], [], ["-olist".toList, "x.lst".toList], ["-t".toList, "3".toList]] := by decide
+
+instance (t : Tok) : Decidable (Printable t) := by unfold Printable; infer_instance
+
+example : ∀ p ∈ demoKeyLines, p.1.Good := by
+  intro p hp
+  simp [demoKeyLines] at hp
+  rcases hp with h | h | h <;> subst h <;> exact ⟨by decide, by decide⟩
+example : demoKeyLast.Good := ⟨by decide, by decide⟩
+-- the reader on the concrete file: four lines, the unterminated one included
+example : (keyFileLines (renderKey demoKeyLines (some demoKeyLast))).map String.ofList = ["-Lu  +q", "", "  -olist x.lst ", " -t   3"] := by decide
+-- and with a final line end: the same lines plus the empty read at the end of the file
+example : (keyFileLines (renderKey (demoKeyLines ++ [(demoKeyLast, .crlf)]) none)).map String.ofList
+    = ["-Lu  +q", "", "  -olist x.lst ", " -t   3", ""] := by decide
+-- the spec's reading of the same file: text lines, blank-separated words
+example : keyFileParams (renderKey demoKeyLines (some demoKeyLast))
+    = [["-Lu".toList, "+q".toList], [], ["-olist".toList, "x.lst".toList], ["-t".toList, "3".toList]] := by
+  simp [keyFileParams, renderKey, renderLines, demoKeyLines, demoKeyLast, lastBody, KLine.body, joinPad, blanks, LineEnd.chars,
+    textLines, dropCR, words]
+-- the handler calls are those of the command line
+example : (processCMD demoTable (rawFs (oneRaw ['K'] (renderKey demoKeyLines (some demoKeyLast)))) [] ["@K".toList, "a.asm".toList] (St.init [])).view.user
+    = (processCMD demoTable (fun _ => none) [] demoToks (St.init [])).view.user := by decide
 example : dreheCodes 2 5 [1, 2, 3, 4, 5] = [2, 1, 4, 3, 5] := by decide
 example : dreheCodes 4 6 [1, 2, 3, 4, 5, 6] = [4, 3, 2, 1, 5, 6] := by decide
 
